@@ -36,6 +36,51 @@ def run_generate(root, hashseed=0, timeout=120, ascii_locale=False, foreign_cwd=
     return p.returncode, (p.stdout[-2000:] + p.stderr[-3000:])
 
 
+API_SCRIPT = r"""
+import os, shutil, sys
+from pathlib import Path
+root, mode = sys.argv[1], sys.argv[2]
+sys.path.insert(0, root)
+from protocol_code_generator.generate.code_generator import ProtocolCodeGenerator
+gen_dir = os.path.join(root, "src", "eolib", "protocol", "_generated")
+shutil.rmtree(gen_dir, ignore_errors=True)
+xml = os.path.join(root, "eo-protocol", "xml")
+if "twin" in mode:
+    # another specification tree is generated first in the same interpreter (types of the same names live elsewhere in it)
+    ProtocolCodeGenerator(Path(os.path.join(root, "twin-xml"))).generate(Path(os.path.join(root, "twin-out")))
+if "dot" in mode:
+    os.chdir(xml)
+    ProtocolCodeGenerator(Path(".")).generate(Path(gen_dir))
+else:
+    ProtocolCodeGenerator(Path(xml)).generate(Path(gen_dir))
+"""
+
+
+def rotated_twin(files):
+    """The same types declared in other directories (net -> pub -> map -> net; packets stay where packets must be)."""
+    rot = {"net": "pub", "pub": "map", "map": "net", "pub/server": "pub/server", "net/client": "net/client", "net/server": "net/server"}
+    out = {}
+    for d, nodes in files.items():
+        if d == "":
+            continue
+        for n in nodes:
+            out.setdefault(d if n.tag == "packet" else rot.get(d, d), []).append(n)
+    return out
+
+
+def run_generate_api(root, mode, files=None, n_families=4, timeout=120):
+    """Generate through the generator's API instead of protocol.py: mode contains 'dot' (input root Path('.') with the
+    xml directory as working directory) and/or 'twin' (the rotated twin tree is generated first in the same interpreter)."""
+    if "twin" in mode:
+        shutil.rmtree(os.path.join(root, "twin-xml"), ignore_errors=True)
+        shutil.rmtree(os.path.join(root, "twin-out"), ignore_errors=True)
+        genpipe.write_tree(rotated_twin(files), os.path.join(root, "twin-xml"), n_families=n_families)
+    env = dict(os.environ, PYTHONHASHSEED="0", PYTHONDONTWRITEBYTECODE="1")
+    opt = ["-OO"] if sys.flags.optimize >= 2 else []
+    p = subprocess.run([PY, "-B", *opt, "-c", API_SCRIPT, root, mode], cwd=root, env=env, capture_output=True, text=True, timeout=timeout, errors="replace")
+    return p.returncode, (p.stdout[-1000:] + p.stderr[-3000:])
+
+
 def generated_dir(root):
     return os.path.join(root, "src", "eolib", "protocol", "_generated")
 
